@@ -5,6 +5,9 @@ from __future__ import annotations
 import ast
 
 CONSTRUCTS = {
+    "masked_literals_with_simple_escapes": 's = "name\tvalue\\n"\nt = \'\'\'two\\tlines \\\\ here\\n\nsecond\tline\'\'\'\nprint(repr(s), repr(t))\n',
+    # literals that are set aside while the text is laid out (tabs, several lines) and also contain backslash escapes, group-reference look-alikes, nested f-strings
+    "masked_literals_with_escapes": 's = "name\tvalue\\n"\nt = \'\'\'multi\\d line \\\\ \\n\nsecond\tline \\1 \\g<0>\'\'\'\nv = 1\nu = f\'\'\'head\t   \n\n\n\n{f"{v}"}  tail\t{v}\'\'\'\nw = f"{f\'{v}\'}\t{v!r:>{v}}"\nprint(repr(s), repr(t), repr(u), repr(w))\n',
     # trailing semicolons where a rule moves or deletes the statement before them
     "trailing_semicolons": 'def f(xs):\n    for x in xs:\n        y = 3;\n    return y\n\n\ndef g(xs):\n    total = 0\n    for x in xs:\n        k = 2; total += x * k;\n    print(total); return total\n\n\nprint(f([1]), g([1, 2]))\n',
     # statements whose later lines are indented less than their first line, right after an import inside a block
@@ -89,7 +92,7 @@ CONDITION_TEMPLATES = [
     "r = [i for i in range({E}) if i > {E}]\n",
 ]
 
-DEGENERATE = ["x = 1\n\\\n\ny = 2\n", "\\\n\n", "", " ", "\n", "\n\n\n", "\t", "   \n  \n", "\ufeff", "\ufeffx = 1\n", "\x00", "x = 1\x00\n", "#", "# only a comment", "pass", "...", "\\", "\\\n",
+DEGENERATE = ["x = 1\n\\\n\ny = 2\n", "\\\n\n", "x = 1 \\\n\n", "print(1) \\\n\n\n", "import os\nprint(os.sep) \\\n\n", "def f():\n    return 1 \\\n\n", "", " ", "\n", "\n\n\n", "\t", "   \n  \n", "\ufeff", "\ufeffx = 1\n", "\x00", "x = 1\x00\n", "#", "# only a comment", "pass", "...", "\\", "\\\n",
               "'''", "'unterminated", "(", ")", "x = (", "def f(", "def f():", "class", "if x:", "    x = 1", "\tx = 1\n\ty = 2\n", "  if x:\n      y = 1\n",
               "x = 1\r\ny = 2\r\n", "x = 1\ry = 2\r", "x = 1\x0cy = 2", "\x0c\nx = 1\n", "x = '\u2028'\n", "# pyrefact: skip_file", "x = 1  # pyrefact: ignore\n",
               "print 'python2'", "exec 'x'", "x = 0777", "async = 1", "match = 1; case = 2; type = 3; print(match, case, type)\n", "lambda: (yield)",
